@@ -141,6 +141,7 @@ receiveLoop:
 	for {
 		select {
 		case msg, ok := <-leftMessages:
+			verifJoinEvent(ctx, 0, !ok, ok && msg.metadata)
 			if !ok {
 				leftDone = true
 				break receiveLoop
@@ -187,6 +188,7 @@ receiveLoop:
 			// TODO: Add backpressure
 
 		case msg, ok := <-rightMessages:
+			verifJoinEvent(ctx, 1, !ok, ok && msg.metadata)
 			if !ok {
 				leftDone = false
 				break receiveLoop
@@ -255,7 +257,12 @@ receiveLoop:
 		return err
 	}
 
+	verifOpenSide := 1
+	if !leftDone {
+		verifOpenSide = 0
+	}
 	for msg := range openChannel {
+		verifJoinEvent(ctx, verifOpenSide, false, msg.metadata)
 		if msg.err != nil {
 			return msg.err
 		}
@@ -281,6 +288,7 @@ receiveLoop:
 		}
 	}
 
+	verifJoinEvent(ctx, verifOpenSide, true, false)
 	if err := processRecordsUpTo(ctx, WatermarkMaxValue); err != nil {
 		return err
 	}
